@@ -28,7 +28,7 @@ claimed = {
    ref="DESIGN.md section 6 C05"),
  "C06": dict(
    text="routing decision executed symbolically over the device table (entry present or not, one unrelated entry), address validity, any IPv4 address and port, protocol strings of length 0,3,4 (1,2 thorough) with symbolic bytes, broadcast address valid or not: asserted which driver method is called, exactly once, with which endpoint",
-   note="seam level only (the bind address / socket layer of ut0311 is not encoded); IPv6 controller addresses are outside the property. " + TRUST,
+   note="seam level for the routing decision; socket level (the four ut0311 methods over the socket script, natively a loopback peer) for: exactly one socket, bound to the configured bind address/port (not configured, 0.0.0.0:0, 0.0.0.0:P, 127.0.0.1:P with P in 20000..29999), exactly one write of the unchanged request to the requested endpoint, nothing to any other endpoint, socket closed; IPv6 controller addresses are outside the property. " + TRUST,
    ref="DESIGN.md section 6 C06"),
  "C07": dict(
    text="one harness per operation with symbolic controller id and arguments; 'rejected' is observed as the transport call counter staying 0 and asserted equivalent to the documented rejection predicate (id 0; PutCard card/PIN/format rules incl. Wiegand-26 over all 2^32 numbers; SetListener over invalid/IPv4/16-byte address kinds; SetAddress over nil and length 0..16 IPs; SetDoorPasscodes doors; SetTimeProfile dates/segments)",
@@ -36,15 +36,15 @@ claimed = {
    ref="DESIGN.md section 6 C07"),
  "C09": dict(
    text="the real ut0311.SendUDP, SendTCP, BroadcastTo and Broadcast are executed symbolically over a socket script and a deterministic clock (time advances only by waiting: reads, TCP connects, sleeps; every goroutine has its own clock, synchronised at wake-ups): k datagrams of symbolic length and content arrive at symbolic instants; asserted: the call returns within timeout + slack measured on the clock, a (first acceptable) reply arriving before the deadline is the result however many stray datagrams precede it, no reply before the deadline is an error, every socket opened is closed and every goroutine started has ended at return, exactly one request is written and only to the addressed endpoint, and - with open/write/connect free to fail - a failure is an error with nothing left open; a read with no deadline and nothing to receive is reported as a deadlock. Counterexamples and, on every run, solver-chosen passing scenarios are replayed natively against a loopback peer that plays the same script with real sockets",
-   note="reduced form (DESIGN 6 C09): timeout fixed at 400 ms, arrival instants kept 100 ms clear of the deadline and at most 3 timeouts out (so that the native replay is robust), returns-in-time allows 150 ms slack; k <= 2 datagrams quick (3 thorough) of length 0..96; one canonical goroutine schedule; calls queued behind the fixed-bind-port lock, kernel behaviour (ICMP refused, RST) and process-wide descriptor / goroutine counts over long call sequences are outside. " + TRUST,
+   note="reduced form (DESIGN 6 C09): timeout fixed at 600 ms, arrival instants kept 150 ms clear of the deadline and at most 3 timeouts out (so that the native replay is robust), returns-in-time allows 400 ms slack; k <= 2 datagrams quick (3 thorough) of length 0..96; one canonical goroutine schedule; calls queued behind the fixed-bind-port lock, kernel behaviour (ICMP refused, RST) and process-wide descriptor / goroutine counts over long call sequences are outside. " + TRUST,
    ref="DESIGN.md section 6 C09"),
  "C10": dict(
    text="the real Listen / listen / datagram handler / dispatch goroutine are executed symbolically against a transport that feeds k datagrams of symbolic length 0..2048 and content from a goroutine through one reused receive buffer; goroutines run as coroutines under one canonical run-to-block schedule (unbuffered rendezvous, single consumer); asserted: connected callback once, exactly one callback per datagram in arrival order, an event callback iff the datagram is a well-formed event (64 bytes, 0x17/0x19, function 0x20, serial != 0, fields in domain) with every status field equal to an independent protocol-table decoding, delivered statuses distinct and unchanged by later datagrams, Listen returns nil, no goroutine left, no deadlock",
-   note="bounds: k <= 2 datagrams quick, 3 thorough; ONE schedule (run-to-block), not all interleavings - delivery order is schedule-independent by construction (argued, not explored); a datagram whose event timestamp is decimal but not a calendar date-time may be delivered with the zero timestamp or rejected (the codec's documented leniency); re-binding the listen address, the closed-flag race in ut0311.Listen and multi-sender arrival order are outside (OS / schedules); seam level (ut0311.Listen's socket loop not encoded). " + TRUST,
+   note="bounds: k <= 2 datagrams quick, 3 thorough; ONE schedule (run-to-block), not all interleavings - delivery order is schedule-independent by construction (argued, not explored); a datagram whose event timestamp is decimal but not a calendar date-time may be delivered with the zero timestamp or rejected (the codec's documented leniency); re-binding the listen address, the closed-flag race in ut0311.Listen and multi-sender arrival order are outside (OS / schedules); seam level (k <= 2 / 3) plus socket level: the real ut0311.Listen receive loop (one reused buffer, truncation of oversize datagrams by the receive buffer, shutdown goroutine) over the socket script with datagrams of length 0..96, replayed natively against a loopback peer. " + TRUST,
    ref="DESIGN.md section 6 C10"),
  "C11": dict(
    text="GetDevices executed on k datagrams of symbolic length 0..2048 and content with a symbolic device table and broadcast port: the result is asserted to be, in arrival order, exactly one entry per well-formed get-device reply (each field from its protocol offset, address completed by the broadcast port, name from the table), nothing for the others, never an error",
-   note="bounds: k <= 2 quick, <= 4 thorough; the collector goroutine of ut0311.Broadcast is not encoded (seam level). " + TRUST,
+   note="bounds: seam level k <= 2 quick, <= 4 thorough (datagram length 0..2048); socket level: the real ut0311.Broadcast (collector goroutine, per-datagram receive buffer and its truncation) over the socket script with k <= 2 (3 thorough) datagrams of length 0..96 arriving within the timeout, one canonical goroutine schedule, replayed natively against a loopback peer. " + TRUST,
    ref="DESIGN.md section 6 C11"),
  "C12": dict(
    text="bounded symbolic execution of bcd.Encode / bcd.Decode: every input byte is a solver variable, the property (exact digits, error iff non-digit / nibble > 9, both round trips) is asserted against an independent reference; unsat = holds for all 256^n inputs of each length n in the bound",
